@@ -148,7 +148,16 @@ static Grd other_grid(const Grd &g, size_t n, i64 mode, bool &equal_content) {
     case 3:
       if (n >= 3) { p.pop_back(); equal_content = false; }
       return Grd(p);
-    default: p.push_back(p.back() + 1); equal_content = false; return Grd(p);
+    case 4: p.push_back(p.back() + 1); equal_content = false; return Grd(p);
+    default: {
+      // modes 5..: the LAST d points shifted (grids of equal size differing in exactly d positions), d from a list that
+      // includes the wrap-around values of narrow counters
+      static const size_t ds[] = {2, 3, 255, 256, 257, 512, 65536, ~size_t(0)};
+      size_t d = std::min(n, ds[(size_t)(mode - 5) % 8]);
+      for (size_t i = n - d; i < n; i++) p[i] += 0.125;
+      equal_content = false;
+      return Grd(p);
+    }
   }
 }
 
@@ -326,7 +335,8 @@ int main(int argc, char **argv) {
     int pl = gen_placement();
     gen_pair((size_t)c.n, pl, c.s1, c.e1, c.s2, c.e2);
     gen_window((size_t)c.n, c.s3, c.e3);
-    c.gridmode = *rc::gen::weightedElement<i64>({{4, 0}, {3, 1}, {1, 2}, {1, 3}, {1, 4}});
+    c.gridmode = *rc::gen::weightedElement<i64>({{4, 0}, {3, 1}, {1, 2}, {1, 3}, {1, 4}, {3, 5}});
+    if (c.gridmode == 5) { c.gridmode = pick(5, 12); c.n = pick(2, 1100); gen_pair((size_t)c.n, pl, c.s1, c.e1, c.s2, c.e2); gen_window((size_t)c.n, c.s3, c.e3); }
     return c;
   });
   vf::add_sub<SupC>("random-single", 300, gen, check_single);
